@@ -21,15 +21,55 @@ broadcast use {f64ax::group_f64_axioms, dispax::axiom_display_total, cloneax::ax
 //@ include types.rs
 //@ include graph_spec.rs
 //@ include heap.rs
+//@ include chain.rs
 //@ include-assumed adjvec.rs u_graph
 //@ include-assumed graph_fns.rs u_graph
 
 //@ include-assumed cent_fns.rs u_cent
 
+// ---- what the betweenness kernels hand to the accumulation, beyond well-formedness ----
+pub open spec fn has_row_entry<T: Eq + PartialOrd + Send + Sync, A: Clone>(g: Graph<T, A>, p: usize, w: usize) -> bool {
+    p < g.n() && exists|e: int| 0 <= e < g.successors_vec@[p as int]@.len() && (#[trigger] g.successors_vec@[p as int]@[e]).node_index == w
+}
+// every entry of a predecessor list P[w] is the tail of a stored traversal entry into w
+pub open spec fn preds_are_edges<T: Eq + PartialOrd + Send + Sync, A: Clone>(g: Graph<T, A>, P: Seq<Vec<usize>>) -> bool {
+    forall|w: int, k: int| 0 <= w < P.len() && 0 <= k < P[w]@.len() ==> has_row_entry(g, #[trigger] P[w]@[k], w as usize)
+}
+// every traversal entry of a node of the visiting order S leads to a node of S or to a node still waiting in `q`
+pub open spec fn order_closed_upto<T: Eq + PartialOrd + Send + Sync, A: Clone>(g: Graph<T, A>, S: Seq<usize>, q: Seq<usize>, cur: int, upto: int) -> bool {
+    forall|v: usize, k: int| S.contains(v) && v < g.n() && 0 <= k < g.successors_vec@[v as int]@.len() && (v != cur || k < upto)
+        ==> S.contains((#[trigger] g.successors_vec@[v as int]@[k]).node_index) || q.contains(g.successors_vec@[v as int]@[k].node_index)
+}
+// the visiting order contains the source and is closed under the traversal rows: it covers every node reachable from the source
+pub open spec fn order_covers_reachable<T: Eq + PartialOrd + Send + Sync, A: Clone>(g: Graph<T, A>, source: usize, S: Seq<usize>) -> bool {
+    &&& S.contains(source)
+    &&& forall|v: usize, k: int| S.contains(v) && v < g.n() && 0 <= k < g.successors_vec@[v as int]@.len()
+            ==> S.contains((#[trigger] g.successors_vec@[v as int]@[k]).node_index)
+}
+pub proof fn lemma_contains_push(s: Seq<usize>, x: usize, y: usize)
+    requires s.contains(y) || x == y,
+    ensures s.push(x).contains(y),
+{
+    if s.contains(y) {
+        let j = choose|j: int| 0 <= j < s.len() && s[j] == y;
+        assert(s.push(x)[j] == y);
+    } else {
+        assert(s.push(x)[s.len() as int] == y);
+    }
+}
+
+pub proof fn lemma_contains_push_rev(s: Seq<usize>, x: usize, y: usize)
+    requires s.push(x).contains(y), x != y,
+    ensures s.contains(y),
+{
+    let j = choose|j: int| 0 <= j < s.push(x).len() && s.push(x)[j] == y;
+    assert(j < s.len());
+    assert(s[j] == y);
+}
+
 //@ extract fn src/algorithms/centrality/betweenness.rs bfs props=C03,C05,C20
 //@ head
 #[verifier::exec_allows_no_decreases_clause]
-#[verifier::loop_isolation(false)]
 //@ rewrite
 -> SingleSourceResults
 //@ with
@@ -46,6 +86,10 @@ sigma[w] = sigma[w] + sigmav;
 f64::MAX
 //@ with
 vf64_max()
+//@ rewrite
+for adj in graph.get_successor_nodes_by_index(&v)
+//@ with
+for adj in row_it: graph.get_successor_nodes_by_index(&v)
 //@ spec
     requires
         graph.wf_nodes(),
@@ -55,23 +99,97 @@ vf64_max()
         // [C05.bfs.results_wf]
         ssr_wf(r, graph.n()),
         r.source == source,
+        // [C05.bfs.predecessors_are_stored_edges, C03.consumers.betweenness_bfs_reads_successor_rows]
+        preds_are_edges(*graph, r.P@),
+        // [C05.bfs.order_covers_reachable_set]
+        order_covers_reachable(*graph, source, r.S@),
+//@ before while let Some(v) = fringe.pop_front() {
+    let ghost mut q: Seq<usize> = fringe@;
+    proof {
+        assert(fringe@[0] == source);
+    }
 //@ loop 1
         invariant
+            graph.wf_nodes(),
+            graph.wf_rows(),
+            source < graph.n(),
             P@.len() == graph.n(),
             D@.len() == graph.n(),
             sigma@.len() == graph.n(),
+            q == fringe@,
             forall|k: int| 0 <= k < fringe@.len() ==> #[trigger] fringe@[k] < graph.n(),
             forall|k: int| 0 <= k < S@.len() ==> #[trigger] S@[k] < graph.n(),
             forall|w: int, k: int| 0 <= w < graph.n() && 0 <= k < P@[w]@.len() ==> #[trigger] P@[w]@[k] < graph.n(),
+            preds_are_edges(*graph, P@),
+            // [C05.bfs.nothing_discovered_is_dropped]
+            forall|w: int| 0 <= w < graph.n() && !feq(#[trigger] D@[w], f64_max()) ==> S@.contains(w as usize) || fringe@.contains(w as usize),
+            order_closed_upto(*graph, S@, fringe@, -1, 0),
+            S@.contains(source) || fringe@.contains(source),
+        ensures
+            fringe@.len() == 0,
+//@ before S.push(v);
+        let ghost q0 = q;
+        let ghost S0 = S@;
+//@ after S.push(v);
+        proof {
+            q = fringe@;
+            assert forall|x: usize| #[trigger] q0.contains(x) implies q.contains(x) || x == v by {
+                let j = choose|j: int| 0 <= j < q0.len() && q0[j] == x;
+                if j > 0 { assert(q[j - 1] == x); }
+            }
+            assert forall|x: usize| #[trigger] S0.contains(x) implies S@.contains(x) by {
+                lemma_contains_push(S0, v, x);
+            }
+            lemma_contains_push(S0, v, v);
+            assert forall|x: usize| #[trigger] S@.contains(x) && x != v implies S0.contains(x) by {
+                lemma_contains_push_rev(S0, v, x);
+            }
+            assert(order_closed_upto(*graph, S@, fringe@, v as int, 0));
+        }
 //@ loop 2
             invariant
+                graph.wf_nodes(),
+                graph.wf_rows(),
+                source < graph.n(),
                 v < graph.n(),
                 P@.len() == graph.n(),
                 D@.len() == graph.n(),
                 sigma@.len() == graph.n(),
+                q == fringe@,
+                S@.contains(v),
                 forall|k: int| 0 <= k < fringe@.len() ==> #[trigger] fringe@[k] < graph.n(),
                 forall|k: int| 0 <= k < S@.len() ==> #[trigger] S@[k] < graph.n(),
                 forall|w: int, k: int| 0 <= w < graph.n() && 0 <= k < P@[w]@.len() ==> #[trigger] P@[w]@[k] < graph.n(),
+                preds_are_edges(*graph, P@),
+                forall|w: int| 0 <= w < graph.n() && !feq(#[trigger] D@[w], f64_max()) ==> S@.contains(w as usize) || fringe@.contains(w as usize),
+                order_closed_upto(*graph, S@, fringe@, v as int, row_it.index@ as int),
+                S@.contains(source) || fringe@.contains(source),
+//@ after let w = adj.node_index;
+            proof {
+                assert(graph.successors_vec@[v as int]@[row_it.index@ as int] == *adj);
+                assert(has_row_entry(*graph, v, w));
+            }
+//@ after fringe.push_back(w);
+                proof {
+                    let ghost q1 = q;
+                    q = fringe@;
+                    assert forall|x: usize| #[trigger] q1.contains(x) implies q.contains(x) by {
+                        lemma_contains_push(q1, w, x);
+                    }
+                    lemma_contains_push(q1, w, w);
+                }
+//@ before P[w].push(v);
+                let ghost P0 = P@;
+//@ after P[w].push(v);
+                proof {
+                    assert forall|a: int, k: int| 0 <= a < P@.len() && 0 <= k < P@[a]@.len() implies has_row_entry(*graph, #[trigger] P@[a]@[k], a as usize) by {
+                        if a == w as int {
+                            if k < P0[a]@.len() { assert(P@[a]@[k] == P0[a]@[k]); }
+                        } else {
+                            assert(P@[a] == P0[a]);
+                        }
+                    }
+                }
 //@ end
 
 //@ extract struct src/algorithms/centrality/fringe_node.rs FringeNode
@@ -117,7 +235,6 @@ distance: core::ops::Neg::neg(vw_dist),
 //@ extract fn src/algorithms/centrality/betweenness.rs dijkstra props=C03,C05,C20
 //@ head
 #[verifier::exec_allows_no_decreases_clause]
-#[verifier::loop_isolation(false)]
 //@ rewrite
 -> SingleSourceResults
 //@ with
@@ -146,6 +263,10 @@ let dist = core::ops::Neg::neg(fringe_item.distance);
 f64::MAX
 //@ with
 vf64_max()
+//@ rewrite
+for adj in graph.get_successor_nodes_by_index(&v)
+//@ with
+for adj in row_it: graph.get_successor_nodes_by_index(&v)
 //@ spec
     requires
         graph.wf_nodes(),
@@ -155,13 +276,24 @@ vf64_max()
         // [C05.dijkstra.results_wf]
         ssr_wf(r, graph.n()),
         r.source == source,
+        // [C05.dijkstra.predecessors_are_stored_edges, C03.consumers.betweenness_dijkstra_reads_successor_rows]
+        preds_are_edges(*graph, r.P@),
+        // [C05.dijkstra.order_covers_reachable_set]
+        order_covers_reachable(*graph, source, r.S@),
 //@ before while let Some(fringe_item) = fringe.pop() {
     let ghost mut popped: Set<usize> = Set::empty();
+    let ghost mut hv: vstd::multiset::Multiset<FringeNode> = heap_view(&fringe);
     proof {
-        assert(heap_view(&fringe) =~= vstd::multiset::Multiset::<FringeNode>::empty().insert(FringeNode { distance: fneg(0.0f64), pred: source, v: source }));
+        let it0 = FringeNode { distance: fneg(0.0f64), pred: source, v: source };
+        assert(heap_view(&fringe) =~= vstd::multiset::Multiset::<FringeNode>::empty().insert(it0));
+        assert(heap_view(&fringe).count(it0) > 0);
+        assert(in_heap(heap_view(&fringe), source));
     }
 //@ loop 1
         invariant
+            graph.wf_nodes(),
+            graph.wf_rows(),
+            source < graph.n(),
             P@.len() == graph.n(),
             D@.len() == graph.n(),
             seen@.len() == graph.n(),
@@ -176,12 +308,47 @@ vf64_max()
             forall|w: int| 0 <= w < graph.n() && !popped.contains(w as usize) && w != source && P@[w]@.len() == 0 ==> feq(#[trigger] seen@[w], f64_max()),
             forall|w: int| 0 <= w < graph.n() && !feq(#[trigger] D@[w], f64_max()) ==> popped.contains(w as usize),
             popped.contains(source) || forall|it: FringeNode| #[trigger] heap_view(&fringe).count(it) > 0 ==> it.v == source,
+            hv == heap_view(&fringe),
+            forall|x: usize| #![trigger popped.contains(x)] #![trigger S@.contains(x)] popped.contains(x) <==> S@.contains(x),
+            preds_are_edges(*graph, P@),
+            // [C05.dijkstra.nothing_reachable_is_dropped]
+            forall|w: int| 0 <= w < graph.n() && !feq(#[trigger] seen@[w], f64_max()) ==> popped.contains(w as usize) || in_heap(heap_view(&fringe), w as usize),
+            succ_closed_upto(*graph, popped, heap_view(&fringe), -1, 0),
+            popped.contains(source) || in_heap(heap_view(&fringe), source),
+        ensures
+            heap_view(&fringe).len() == 0,
+//@ before let dist = -fringe_item.distance;
+        let ghost heap0 = hv;
+        proof {
+            hv = heap_view(&fringe);
+            assert(heap0.count(fringe_item) > 0);
+            assert(hv == heap0.remove(fringe_item));
+            assert forall|w: usize| w != fringe_item.v && #[trigger] in_heap(heap0, w) implies in_heap(heap_view(&fringe), w) by {
+                lemma_in_heap_remove(heap0, fringe_item, w);
+            }
+        }
+//@ before continue;
+            proof {
+                assert(popped.contains(v));
+            }
+//@ before S.push(v);
+        let ghost S0 = S@;
 //@ after S.push(v);
         proof {
             popped = popped.insert(v);
+            assert forall|x: usize| #[trigger] S0.contains(x) implies S@.contains(x) by {
+                lemma_contains_push(S0, v, x);
+            }
+            lemma_contains_push(S0, v, v);
+            assert forall|x: usize| #[trigger] S@.contains(x) && x != v implies S0.contains(x) by {
+                lemma_contains_push_rev(S0, v, x);
+            }
         }
 //@ loop 2
             invariant
+                graph.wf_nodes(),
+                graph.wf_rows(),
+                source < graph.n(),
                 v < graph.n(),
                 P@.len() == graph.n(),
                 D@.len() == graph.n(),
@@ -195,19 +362,115 @@ vf64_max()
                 forall|w: int| 0 <= w < graph.n() && !feq(#[trigger] D@[w], f64_max()) ==> popped.contains(w as usize),
                 popped.contains(source),
                 popped.contains(v),
+                hv == heap_view(&fringe),
+                forall|x: usize| #![trigger popped.contains(x)] #![trigger S@.contains(x)] popped.contains(x) <==> S@.contains(x),
+                preds_are_edges(*graph, P@),
+                forall|w: int| 0 <= w < graph.n() && !feq(#[trigger] seen@[w], f64_max()) ==> popped.contains(w as usize) || in_heap(heap_view(&fringe), w as usize),
+                succ_closed_upto(*graph, popped, heap_view(&fringe), v as int, row_it.index@ as int),
+//@ after let w = adj.node_index;
+            let ghost fringe0 = heap_view(&fringe);
+            let ghost P0 = P@;
+            proof {
+                assert(graph.successors_vec@[v as int]@[row_it.index@ as int] == *adj);
+                assert(has_row_entry(*graph, v, w));
+            }
+//@ after push_fringe_node(&mut fringe, v, w, vw_dist);
+                proof {
+                    let itx = FringeNode { distance: fneg(vw_dist), pred: v, v: w };
+                    hv = heap_view(&fringe);
+                    assert forall|x: usize| #[trigger] in_heap(fringe0, x) implies in_heap(heap_view(&fringe), x) by {
+                        lemma_in_heap_insert(fringe0, itx, x);
+                    }
+                    lemma_in_heap_insert(fringe0, itx, w);
+                }
+//@ after P[w] = vec![v];
+                proof {
+                    assert forall|a: int, k: int| 0 <= a < P@.len() && 0 <= k < P@[a]@.len() implies has_row_entry(*graph, #[trigger] P@[a]@[k], a as usize) by {
+                        if a != w as int { assert(P@[a] == P0[a]); }
+                    }
+                }
+//@ after P[w].push(v);
+                proof {
+                    assert forall|a: int, k: int| 0 <= a < P@.len() && 0 <= k < P@[a]@.len() implies has_row_entry(*graph, #[trigger] P@[a]@[k], a as usize) by {
+                        if a == w as int {
+                            if k < P0[a]@.len() { assert(P@[a]@[k] == P0[a]@[k]); }
+                        } else {
+                            assert(P@[a] == P0[a]);
+                        }
+                    }
+                }
 //@ end
 
-// R-ext (A5): `D.into_iter().enumerate().filter(|(_, d)| *d != f64::MAX).collect()`: ASSUMED to keep exactly the reached entries
+// ---- reachability + walk soundness of the weighted kernels (shared with u_sp through chain.rs) ----
+// a heap item is justified: it names nodes of the graph and carries the (negated) length of a walk to its node
+pub open spec fn citem_ok<T: Eq + PartialOrd + Send + Sync, A: Clone>(g: Graph<T, A>, source: usize, hist: Seq<(usize, f64)>, it: FringeNode) -> bool {
+    &&& it.v < g.n() && it.pred < g.n()
+    &&& (it.v == source && fneg(it.distance) == 0.0f64)
+        || exists|i: int| #[trigger] extends(g, true, hist, i, it.v, fneg(it.distance))
+}
+pub open spec fn in_heap(h: vstd::multiset::Multiset<FringeNode>, w: usize) -> bool {
+    exists|it: FringeNode| #[trigger] h.count(it) > 0 && it.v == w
+}
+// every traversal entry of a node of `done` leads into `done` or to a node still waiting in the heap
+pub open spec fn succ_closed_upto<T: Eq + PartialOrd + Send + Sync, A: Clone>(g: Graph<T, A>, done: Set<usize>, h: vstd::multiset::Multiset<FringeNode>, cur: int, upto: int) -> bool {
+    forall|v: usize, k: int| done.contains(v) && v < g.n() && 0 <= k < g.successors_vec@[v as int]@.len() && (v != cur || k < upto)
+        ==> done.contains((#[trigger] g.successors_vec@[v as int]@[k]).node_index) || in_heap(h, g.successors_vec@[v as int]@[k].node_index)
+}
+pub open spec fn succ_closed<T: Eq + PartialOrd + Send + Sync, A: Clone>(g: Graph<T, A>, done: Set<usize>) -> bool {
+    forall|v: usize, k: int| done.contains(v) && v < g.n() && 0 <= k < g.successors_vec@[v as int]@.len()
+        ==> done.contains((#[trigger] g.successors_vec@[v as int]@[k]).node_index)
+}
+// what a single-source kernel reports: `done` is the set of nodes reachable from the source (it contains the source, is
+// closed under the traversal rows, and each of its nodes was assigned the length of a walk from the source: chain_ok);
+// `out` lists nodes of `done` with their assigned lengths, and every node of `done` is listed unless its length is f64::MAX
+pub open spec fn reach_rel<T: Eq + PartialOrd + Send + Sync, A: Clone>(g: Graph<T, A>, weighted: bool, source: usize, hist: Seq<(usize, f64)>, done: Set<usize>, out: Seq<(usize, f64)>) -> bool {
+    &&& chain_ok(g, weighted, source, hist)
+    &&& forall|j: int| 0 <= j < out.len() ==> hist.contains(#[trigger] out[j]) && done.contains(out[j].0)
+    &&& done.contains(source)
+    &&& succ_closed(g, done)
+    &&& forall|w: usize| #[trigger] done.contains(w) ==> w < g.n() && exists|d: f64| #[trigger] hist.contains((w, d)) && (feq(d, f64_max()) || out.contains((w, d)))
+}
+pub proof fn lemma_in_heap_remove(h: vstd::multiset::Multiset<FringeNode>, it: FringeNode, w: usize)
+    requires in_heap(h, w), w != it.v,
+    ensures in_heap(h.remove(it), w),
+{
+    let x = choose|x: FringeNode| #[trigger] h.count(x) > 0 && x.v == w;
+    assert(h.remove(it).count(x) > 0);
+}
+pub proof fn lemma_in_heap_insert(h: vstd::multiset::Multiset<FringeNode>, it: FringeNode, w: usize)
+    requires in_heap(h, w) || it.v == w,
+    ensures in_heap(h.insert(it), w),
+{
+    if it.v == w {
+        assert(h.insert(it).count(it) > 0);
+    } else {
+        let x = choose|x: FringeNode| #[trigger] h.count(x) > 0 && x.v == w;
+        assert(h.insert(it).count(x) > 0);
+    }
+}
+pub proof fn lemma_citem_mono<T: Eq + PartialOrd + Send + Sync, A: Clone>(g: Graph<T, A>, source: usize, h0: Seq<(usize, f64)>, x: (usize, f64), it: FringeNode)
+    requires citem_ok(g, source, h0, it),
+    ensures citem_ok(g, source, h0.push(x), it),
+{
+    if !(it.v == source && fneg(it.distance) == 0.0f64) {
+        let i = choose|i: int| #[trigger] extends(g, true, h0, i, it.v, fneg(it.distance));
+        lemma_extends_mono(g, true, h0, x, i, it.v, fneg(it.distance));
+    }
+}
+
+// R-ext (A5): `D.into_iter().enumerate().filter(|(_, d)| *d != f64::MAX).collect()`: ASSUMED to keep exactly the reached entries,
+// in index order
 #[verifier::external_body]
 pub fn vcollect_reached(D: Vec<f64>) -> (r: Vec<(usize, f64)>)
     ensures
         forall|j: int| 0 <= j < r@.len() ==> (#[trigger] r@[j]).0 < D@.len() && r@[j].1 == D@[r@[j].0 as int] && !feq(r@[j].1, f64_max()),
+        forall|i: int| 0 <= i < D@.len() && !feq(#[trigger] D@[i], f64_max()) ==> r@.contains((i as usize, D@[i])),
+        forall|a: int, b: int| 0 <= a < b < r@.len() ==> (#[trigger] r@[a]).0 < (#[trigger] r@[b]).0,
 { D.into_iter().enumerate().filter(|(_, d)| *d != f64::MAX).collect() }
 
 //@ extract fn src/algorithms/centrality/closeness.rs single_source_shortest_path_length_weighted props=C03,C06,C20
 //@ head
 #[verifier::exec_allows_no_decreases_clause]
-#[verifier::loop_isolation(false)]
 //@ rewrite
 -> Vec<(usize, f64)>
 //@ with
@@ -234,11 +497,36 @@ let dist = core::ops::Neg::neg(fringe_item.distance);
         .filter(|(_, d)| *d != f64::MAX)
         .collect()
 //@ with
-    vcollect_reached(D)
+        let ghost D0 = D@;
+        let out = vcollect_reached(D);
+        proof {
+            assert forall|x: usize| !in_heap(heap_view(&fringe), x) by {
+                if in_heap(heap_view(&fringe), x) {
+                    let it = choose|it: FringeNode| #[trigger] heap_view(&fringe).count(it) > 0 && it.v == x;
+                    assert(heap_view(&fringe).count(it) <= heap_view(&fringe).len());
+                }
+            }
+            assert(succ_closed(*graph, done));
+            assert forall|j: int| 0 <= j < out@.len() implies hist.contains(#[trigger] out@[j]) && done.contains(out@[j].0) by {
+                assert(reported(D0, out@[j].0 as int));
+            }
+            assert forall|w: usize| #[trigger] done.contains(w) implies w < graph.n() && exists|d: f64| #[trigger] hist.contains((w, d)) && (feq(d, f64_max()) || out@.contains((w, d))) by {
+                let d = choose|d: f64| #[trigger] hist.contains((w, d)) && (feq(d, f64_max()) || D0[w as int] == d);
+                if !feq(d, f64_max()) {
+                    assert(out@.contains((w, D0[w as int])));
+                }
+            }
+            assert(reach_rel(*graph, true, source, hist, done, out@));
+        }
+        out
 //@ rewrite count=any
 f64::MAX
 //@ with
 vf64_max()
+//@ rewrite
+for adj in graph.get_successor_nodes_by_index(&v)
+//@ with
+for adj in row_it: graph.get_successor_nodes_by_index(&v)
 //@ spec
     requires
         graph.wf_nodes(),
@@ -247,36 +535,140 @@ vf64_max()
     ensures
         // [C06.kernel.weighted_reports_nodes_only]
         forall|j: int| 0 <= j < r@.len() ==> (#[trigger] r@[j]).0 < graph.n(),
+        // [C06.kernel.weighted_one_entry_per_node]
+        forall|a: int, b: int| 0 <= a < b < r@.len() ==> (#[trigger] r@[a]).0 < (#[trigger] r@[b]).0,
+        // [C06.kernel.weighted_reports_the_reachable_set_with_walk_lengths, C03.consumers.closeness_weighted_reads_successor_rows]
+        // the reported nodes are exactly the nodes reachable from the source over the rows of successors_vec (minus those whose
+        // assigned length is f64::MAX), and every reported distance is the length (left fold of f64 `+` over stored weights) of a
+        // walk from the source
+        exists|hist: Seq<(usize, f64)>, done: Set<usize>| #[trigger] reach_rel(*graph, true, source, hist, done, r@),
 //@ before while let Some(fringe_item) = fringe.pop() {
+    let ghost mut hist: Seq<(usize, f64)> = Seq::empty();
+    let ghost mut done: Set<usize> = Set::empty();
+    let ghost mut hv: vstd::multiset::Multiset<FringeNode> = heap_view(&fringe);
     proof {
-        assert(heap_view(&fringe) =~= vstd::multiset::Multiset::<FringeNode>::empty().insert(FringeNode { distance: fneg(0.0f64), pred: source, v: source }));
+        let it0 = FringeNode { distance: fneg(0.0f64), pred: source, v: source };
+        assert(heap_view(&fringe) =~= vstd::multiset::Multiset::<FringeNode>::empty().insert(it0));
+        assert(heap_view(&fringe).count(it0) > 0);
+        assert(in_heap(heap_view(&fringe), source));
+        assert(fneg(fneg(0.0f64)) == 0.0f64);
     }
 //@ loop 1
         invariant
+            graph.wf_nodes(),
+            graph.wf_rows(),
+            source < graph.n(),
             D@.len() == graph.n(),
             seen@.len() == graph.n(),
             sigma@.len() == graph.n(),
-            forall|it: FringeNode| #[trigger] heap_view(&fringe).count(it) > 0 ==> it.v < graph.n() && it.pred < graph.n(),
+            hv == heap_view(&fringe),
+            // [C06.kernel.heap_items_justified]
+            forall|it: FringeNode| #[trigger] heap_view(&fringe).count(it) > 0 ==> citem_ok(*graph, source, hist, it),
+            // [C06.kernel.assignments_form_walks]
+            chain_ok(*graph, true, source, hist),
+            forall|u: int| reported(D@, u) ==> hist.contains((u as usize, #[trigger] D@[u])),
+            // [C06.kernel.settled_nodes_are_not_reassigned]
+            forall|j: int| 0 <= j < hist.len() ==> (#[trigger] hist[j]).0 < D@.len() && (feq(hist[j].1, f64_max()) || D@[hist[j].0 as int] == hist[j].1),
+            // [C06.kernel.nothing_reachable_is_dropped]
+            forall|w: int| 0 <= w < graph.n() && !feq(#[trigger] seen@[w], f64_max()) ==> done.contains(w as usize) || in_heap(heap_view(&fringe), w as usize),
+            forall|w: int| 0 <= w < graph.n() && !feq(#[trigger] D@[w], f64_max()) ==> done.contains(w as usize),
+            forall|w: usize| #[trigger] done.contains(w) ==> w < graph.n() && exists|d: f64| #[trigger] hist.contains((w, d)) && (feq(d, f64_max()) || D@[w as int] == d),
+            succ_closed_upto(*graph, done, heap_view(&fringe), -1, 0),
+            done.contains(source) || in_heap(heap_view(&fringe), source),
+        ensures
+            heap_view(&fringe).len() == 0,
+//@ before let dist = -fringe_item.distance;
+        let ghost heap0 = hv;
+        proof {
+            hv = heap_view(&fringe);
+            assert(heap0.count(fringe_item) > 0);
+            assert(hv == heap0.remove(fringe_item));
+            assert forall|w: usize| w != fringe_item.v && #[trigger] in_heap(heap0, w) implies in_heap(heap_view(&fringe), w) by {
+                lemma_in_heap_remove(heap0, fringe_item, w);
+            }
+        }
+//@ before continue;
+            proof {
+                assert(done.contains(v));
+            }
+//@ after D[v] = dist;
+        proof {
+            let ghost h0 = hist;
+            let ghost done0 = done;
+            hist = hist.push((v, dist));
+            done = done.insert(v);
+            lemma_chain_push(*graph, true, source, h0, v, dist);
+            assert forall|it: FringeNode| #[trigger] heap_view(&fringe).count(it) > 0 implies citem_ok(*graph, source, hist, it) by {
+                lemma_citem_mono(*graph, source, h0, (v, dist), it);
+            }
+            assert(hist[h0.len() as int] == (v, dist));
+            assert forall|u: int| reported(D@, u) implies hist.contains((u as usize, #[trigger] D@[u])) by {
+                if u != v as int {
+                    let j = choose|j: int| 0 <= j < h0.len() && h0[j] == (u as usize, D@[u]);
+                    assert(hist[j] == h0[j]);
+                }
+            }
+            assert forall|w: usize| #[trigger] done.contains(w) implies w < graph.n() && exists|d: f64| #[trigger] hist.contains((w, d)) && (feq(d, f64_max()) || D@[w as int] == d) by {
+                if w != v {
+                    let d = choose|d: f64| #[trigger] h0.contains((w, d)) && (feq(d, f64_max()) || D@[w as int] == d);
+                    let j = choose|j: int| 0 <= j < h0.len() && h0[j] == (w, d);
+                    assert(hist[j] == h0[j]);
+                    assert(hist.contains((w, d)));
+                } else {
+                    assert(hist.contains((v, dist)));
+                }
+            }
+        }
+        let ghost vpos: int = hist.len() - 1;
 //@ loop 2
             invariant
                 v < graph.n(),
                 D@.len() == graph.n(),
                 seen@.len() == graph.n(),
                 sigma@.len() == graph.n(),
-                forall|it: FringeNode| #[trigger] heap_view(&fringe).count(it) > 0 ==> it.v < graph.n() && it.pred < graph.n(),
+                hv == heap_view(&fringe),
+                graph.wf_nodes(),
+                graph.wf_rows(),
+                source < graph.n(),
+                0 <= vpos < hist.len() && hist[vpos] == (v, dist),
+                done.contains(v),
+                chain_ok(*graph, true, source, hist),
+                forall|u: int| reported(D@, u) ==> hist.contains((u as usize, #[trigger] D@[u])),
+                forall|j: int| 0 <= j < hist.len() ==> (#[trigger] hist[j]).0 < D@.len() && (feq(hist[j].1, f64_max()) || D@[hist[j].0 as int] == hist[j].1),
+                forall|w: int| 0 <= w < graph.n() && !feq(#[trigger] D@[w], f64_max()) ==> done.contains(w as usize),
+                forall|w: usize| #[trigger] done.contains(w) ==> w < graph.n() && exists|d: f64| #[trigger] hist.contains((w, d)) && (feq(d, f64_max()) || D@[w as int] == d),
+                forall|it: FringeNode| #[trigger] heap_view(&fringe).count(it) > 0 ==> citem_ok(*graph, source, hist, it),
+                forall|w: int| 0 <= w < graph.n() && !feq(#[trigger] seen@[w], f64_max()) ==> done.contains(w as usize) || in_heap(heap_view(&fringe), w as usize),
+                succ_closed_upto(*graph, done, heap_view(&fringe), v as int, row_it.index@ as int),
+                done.contains(source) || in_heap(heap_view(&fringe), source),
+//@ before let vw_dist = dist + cost;
+            let ghost fringe0 = heap_view(&fringe);
+//@ after let vw_dist = dist + cost;
+            proof {
+                assert(graph.successors_vec@[v as int]@[row_it.index@ as int] == *adj);
+                assert(extends(*graph, true, hist, vpos, w, vw_dist));
+                assert(fneg(fneg(vw_dist)) == vw_dist);
+            }
+//@ after push_fringe_node(&mut fringe, v, w, vw_dist);
+                proof {
+                    let itx = FringeNode { distance: fneg(vw_dist), pred: v, v: w };
+                    hv = heap_view(&fringe);
+                    assert(extends(*graph, true, hist, vpos, itx.v, fneg(itx.distance)));
+                    assert(citem_ok(*graph, source, hist, itx));
+                    assert forall|x: usize| #[trigger] in_heap(fringe0, x) implies in_heap(heap_view(&fringe), x) by {
+                        lemma_in_heap_insert(fringe0, itx, x);
+                    }
+                    lemma_in_heap_insert(fringe0, itx, w);
+                    assert(in_heap(heap_view(&fringe), w));
+                }
 //@ end
 
 // ---- the betweenness driver: kernels -> accumulation -> rescale with the graph's own parameters ----
-// R-ext (A5): the rayon expression of the parallel branch, rayon::current_num_threads(), get_all_nodes() and the final
-// enumerate/map/collect into a name-keyed map sit behind local declarations with ASSUMED contracts
+// R-ext (A5): rayon::current_num_threads(), get_all_nodes() and the final enumerate/map/collect into a name-keyed map sit
+// behind local declarations with ASSUMED contracts; the rayon expression `(0..n).into_par_iter().map(f).collect()` targets
+// vpar_map_collect (assumed: element i satisfies f's postcondition) while the closure f itself stays in place and is verified
 #[verifier::external_body]
 pub fn vrayon_threads() -> usize { unimplemented!() }
-#[verifier::external_body]
-pub fn vpar_single_source_results<T, A>(graph: &Graph<T, A>, weighted: bool) -> (r: Vec<SingleSourceResults>)
-    where T: Hash + Eq + Clone + Ord + Debug + Display + Send + Sync, A: Clone + Send + Sync,
-    requires graph.wf_nodes(), graph.wf_rows(),
-    ensures forall|k: int| 0 <= k < r@.len() ==> ssr_wf(#[trigger] r@[k], graph.n()),
-{ unimplemented!() }
 // the name-keyed result: one entry per node, node i carries b[i]
 pub open spec fn name_map_of<T: Eq + PartialOrd + Send + Sync, A: Clone>(g: Graph<T, A>, b: Seq<f64>, m: Map<T, f64>) -> bool {
     &&& forall|i: int| 0 <= i < g.n() ==> m.contains_key(#[trigger] g.nodes_vec@[i].name) && m[g.nodes_vec@[i].name] == b[i]
@@ -310,12 +702,16 @@ vrayon_threads()
 (0..graph.number_of_nodes())
                 .into_par_iter()
                 .map(|source| match weighted {
-                    true => dijkstra(graph, source),
-                    false => bfs(graph, source),
+//@ with
+vpar_map_collect(graph.number_of_nodes(), |source: usize| -> (o: SingleSourceResults)
+                    requires source < graph.n(), graph.wf_nodes(), graph.wf_rows(),
+                    ensures ssr_wf(o, graph.n()),
+                { match weighted {
+//@ rewrite
                 })
                 .collect();
 //@ with
-vpar_single_source_results(graph, weighted);
+                }});
 //@ rewrite
 for r in results
 //@ with
@@ -357,6 +753,158 @@ for source in its: 0..graph.number_of_nodes()
     proof {
         assert(scaled_form(b0, betweenness@, graph.n() as usize, normalized, graph.specs.directed));
     }
+//@ end
+
+
+// ---- the closeness driver: (reversed graph) -> kernels -> formula -> name-keyed map ----
+// R-ext (A5): `(0..n).into_par_iter().map(f).collect()` targets a local declaration ASSUMED to return, for every i < n in
+// order, a value satisfying f's postcondition (the closure f itself stays in place and is verified)
+#[verifier::external_body]
+pub fn vpar_map_collect<O: Send, F: Fn(usize) -> O + Sync + Send>(n: usize, f: F) -> (r: Vec<O>)
+    requires forall|i: usize| i < n ==> call_requires(f, (i,)),
+    ensures r@.len() == n, forall|i: int| 0 <= i < n ==> call_ensures(f, (i as usize,), #[trigger] r@[i]),
+{ unimplemented!() }
+
+// what a single-source closeness kernel returns for `source`: one entry per reported node (ascending, so no node twice)
+// listing exactly the reachable set with walk lengths (reach_rel)
+pub open spec fn kernel_out<T: Eq + PartialOrd + Send + Sync, A: Clone>(g: Graph<T, A>, weighted: bool, source: usize, sp: Seq<(usize, f64)>) -> bool {
+    &&& forall|a: int, b: int| 0 <= a < b < sp.len() ==> (#[trigger] sp[a]).0 < (#[trigger] sp[b]).0
+    &&& exists|hist: Seq<(usize, f64)>, done: Set<usize>| #[trigger] reach_rel(g, weighted, source, hist, done, sp)
+}
+pub open spec fn entry_ok<T: Eq + PartialOrd + Send + Sync, A: Clone>(g: Graph<T, A>, weighted: bool, wf_improved: bool, i: usize, c: f64) -> bool {
+    exists|sp: Seq<(usize, f64)>| #[trigger] kernel_out(g, weighted, i, sp) && c == node_centrality_spec(sp, g.n() as usize, wf_improved)
+}
+// the result map: one entry per node of the searched graph, holding the formula applied to that node's kernel output
+pub open spec fn closeness_map_ok<T: Eq + PartialOrd + Send + Sync, A: Clone>(g: Graph<T, A>, weighted: bool, wf_improved: bool, upto: int, m: Map<T, f64>) -> bool {
+    &&& forall|i: int| 0 <= i < upto ==> m.contains_key(#[trigger] g.nodes_vec@[i].name) && entry_ok(g, weighted, wf_improved, i as usize, m[g.nodes_vec@[i].name])
+    &&& forall|k: T| #[trigger] m.contains_key(k) ==> g.knows(k) && g.nodes_map@[k] < upto
+}
+// the graph the kernels search: the graph itself when undirected, its reversal when directed (so that outgoing search
+// yields incoming distances)
+pub open spec fn search_graph<T: Eq + PartialOrd + Send + Sync, A: Clone>(g: Graph<T, A>, rg: Graph<T, A>) -> bool {
+    if g.specs.directed { reverse_outcome(g, Ok(rg)) } else { rg == g }
+}
+pub proof fn lemma_closeness_map_insert<T: Eq + PartialOrd + Send + Sync, A: Clone>(g: Graph<T, A>, weighted: bool, wf_improved: bool, j: int, m: Map<T, f64>, nm: T, c: f64)
+    requires
+        g.wf_nodes(), 0 <= j < g.n(), nm == g.nodes_vec@[j].name,
+        closeness_map_ok(g, weighted, wf_improved, j, m),
+        entry_ok(g, weighted, wf_improved, j as usize, c),
+    ensures
+        closeness_map_ok(g, weighted, wf_improved, j + 1, m.insert(nm, c)),
+{
+    let m2 = m.insert(nm, c);
+    assert forall|i: int| 0 <= i < j + 1 implies m2.contains_key(#[trigger] g.nodes_vec@[i].name) && entry_ok(g, weighted, wf_improved, i as usize, m2[g.nodes_vec@[i].name]) by {
+        if i < j {
+            assert(g.nodes_map@[g.nodes_vec@[i].name] == i);
+            assert(g.nodes_map@[g.nodes_vec@[j].name] == j);
+            assert(g.nodes_vec@[i].name != g.nodes_vec@[j].name);
+        }
+    }
+    assert forall|k: T| #[trigger] m2.contains_key(k) implies g.knows(k) && g.nodes_map@[k] < j + 1 by {
+        if k == g.nodes_vec@[j].name {
+            assert(g.nodes_map@[g.nodes_vec@[j].name] == j);
+        }
+    }
+}
+
+//@ extract fn src/algorithms/centrality/closeness.rs single_source_shortest_path_length_unweighted nobody
+//@ head
+// A5: ASSUMED contract (the level-synchronous BFS clones and drains hash sets; outside the verifier's reach)
+#[verifier::external_body]
+//@ rewrite
+-> Vec<(usize, f64)>
+//@ with
+-> (r: Vec<(usize, f64)>)
+//@ spec
+    requires
+        graph.wf_nodes(),
+        graph.wf_rows(),
+        source < graph.n(),
+    ensures
+        kernel_out(*graph, false, source, r@),
+//@ end
+
+//@ extract fn src/algorithms/centrality/closeness.rs closeness_centrality props=C06,C20
+//@ rewrite
+) -> Result<HashMap<T, f64>, Error>
+//@ with
+) -> (r: Result<HashMap<T, f64>, Error>)
+//@ rewrite
+rayon::current_num_threads()
+//@ with
+vrayon_threads()
+//@ rewrite
+(0..the_graph.number_of_nodes())
+                .into_par_iter()
+                .map(|source| {
+//@ with
+vpar_map_collect(the_graph.number_of_nodes(), |source: usize| -> (o: (T, f64))
+                    requires source < the_graph.n(), the_graph.wf_nodes(), the_graph.wf_rows(), num_nodes == the_graph.n(),
+                    ensures o.0 == the_graph.nodes_vec@[source as int].name, entry_ok(*the_graph, weighted, wf_improved, source, o.1),
+                {
+//@ rewrite
+                })
+                .collect();
+//@ with
+                });
+//@ rewrite
+for (node, cc) in results
+//@ with
+for (node, cc) in itr: results
+//@ rewrite
+for source in 0..the_graph.number_of_nodes()
+//@ with
+for source in its: 0..the_graph.number_of_nodes()
+//@ spec
+    requires
+        graph.wf_nodes(),
+        graph.wf_rows(),
+        // reversing the (well-formed, directed) graph does not fail
+        graph.specs.directed ==> forall|rr: Result<Graph<T, A>, Error>| #[trigger] reverse_outcome(*graph, rr) ==> rr.is_ok(),
+    ensures
+        r.is_ok(),
+        // [C06.driver.formula_of_kernel_output_on_reversed_graph_for_every_node]
+        // the map has exactly one entry per node; node i carries the closeness formula applied to the output of the single-source
+        // kernel (weighted or hop-count, as requested) started at i on the searched graph: the graph itself when undirected,
+        // its reversal (same nodes, every edge flipped) when directed - in the sequential and in the parallel branch alike
+        exists|rg: Graph<T, A>| #[trigger] search_graph(*graph, rg) && closeness_map_ok(rg, weighted, wf_improved, rg.n() as int, r.unwrap()@),
+//@ before let num_nodes = the_graph.number_of_nodes();
+    let ghost rg: Graph<T, A> = *the_graph;
+    proof {
+        assert(search_graph(*graph, rg));
+    }
+//@ loop 1
+                invariant
+                    rg == *the_graph,
+                    rg.wf_nodes(),
+                    results@.len() == rg.n(),
+                    forall|i: int| 0 <= i < results@.len() ==> (#[trigger] results@[i]).0 == rg.nodes_vec@[i].name && entry_ok(rg, weighted, wf_improved, i as usize, results@[i].1),
+                    closeness_map_ok(rg, weighted, wf_improved, itr.index@ as int, centralities@),
+//@ before centralities.insert(node, cc);
+                proof {
+                    lemma_closeness_map_insert(rg, weighted, wf_improved, itr.index@ as int, centralities@, node, cc);
+                }
+//@ loop 2
+                invariant
+                    rg == *the_graph,
+                    rg.wf_nodes(),
+                    rg.wf_rows(),
+                    num_nodes == rg.n(),
+                    closeness_map_ok(rg, weighted, wf_improved, its.index@ as int, centralities@),
+//@ after #1 let cc = get_node_centrality(&shortest_paths, num_nodes, wf_improved);
+                    proof {
+                        assert(kernel_out(*the_graph, weighted, source, shortest_paths@));
+                        assert(entry_ok(*the_graph, weighted, wf_improved, source, cc));
+                    }
+//@ after #2 let cc = get_node_centrality(&shortest_paths, num_nodes, wf_improved);
+                proof {
+                    assert(kernel_out(rg, weighted, source, shortest_paths@));
+                    assert(entry_ok(rg, weighted, wf_improved, source, cc));
+                }
+//@ before centralities.insert(node_name, cc);
+                proof {
+                    lemma_closeness_map_insert(rg, weighted, wf_improved, source as int, centralities@, node_name, cc);
+                }
 //@ end
 
 } // verus!
